@@ -2,6 +2,6 @@
 # seedbatch.sh "C07:2:C07" "C02:1:C02 C14" ...  → logs in /verif/seedlogs
 for spec in "$@"; do
   P=${spec%%:*}; rest=${spec#*:}; N=${rest%%:*}; C=${rest#*:}
-  CHECKS="$C" /verif/seedeval.sh $P $N > /verif/seedlogs/$P-$N.log 2>&1
+  CHECKS="$C" /verif/seedeval.sh $P $N > ${LOGDIR:-/verif/seedlogs}/$P-$N.log 2>&1
 done
 echo batch done
